@@ -66,6 +66,13 @@ class ExprMixin:
             if bt[0] in NEWTYPE_INNER:
                 if e.idx != 0: self.fail('newtype has only field 0', e.line)
                 return Place(base.get, NEWTYPE_INNER[bt[0]], base.set)
+            if bt[0] == 'struct':
+                fields = self.struct_fields(bt[1])
+                names = [f for f, _ in fields]
+                if str(e.idx) not in names: self.fail('struct %s has no field .%d' % (bt[1], e.idx), e.line)
+                j0, n = names.index(str(e.idx)), len(names)
+                return Place(lambda: proj(base.get(), j0, n), fields[j0][1],
+                             lambda t: base.set('(' + ', '.join(t if j == j0 else proj(base.get(), j, n) for j in range(n)) + ')' if n > 1 else t))
             if bt[0] == 'tuple':
                 n = len(bt[1])
                 return Place(lambda: proj(base.get(), e.idx, n), bt[1][e.idx],
@@ -279,6 +286,12 @@ class ExprMixin:
             return t, NEWTYPE_INNER[bt[0]]
         if bt[0] == 'tuple':
             return proj(t, e.idx, len(bt[1])), bt[1][e.idx]
+        if bt[0] == 'struct':
+            fields = self.struct_fields(bt[1])
+            names = [f for f, _ in fields]
+            if str(e.idx) in names:
+                j0 = names.index(str(e.idx))
+                return proj(t, j0, len(names)), fields[j0][1]
         self.fail('tuple field on type %r' % (bt,), e.line)
 
     def ex_Index(self, e):
@@ -753,6 +766,17 @@ class ExprMixin:
                 var = self.resolve_variant([name]) if self.lookup(name) is None else None
                 if var is not None:
                     return self.variant_call(var, e)
+                if self.lookup(name) is None and name in self.tr.crate.structs and self.tr.crate.structs[name].tuple_fields \
+                        and name not in NEWTYPES and self.resolve_free(name, e.line, must=False) is None:
+                    key = self.struct_key(name, e.line)
+                    fields = self.struct_fields(key)
+                    if len(fields) != len(e.args): self.fail('constructor %s applied to %d argument(s)' % (name, len(e.args)), e.line)
+                    parts = []
+                    for a, (_, ft) in zip(e.args, fields):
+                        t, ty = self.ex(a, want=ft)
+                        if not unify(ty, ft): self.fail('argument of %s: expected %r, found %r' % (name, deep(ft), deep(ty)), e.line)
+                        parts.append(t)
+                    return (parts[0] if len(parts) == 1 else '(' + ', '.join(parts) + ')'), ('struct', key)
                 if name in NEWTYPES:
                     t, ty = self.ex(e.args[0])
                     if not unify(ty, NEWTYPE_INNER[NEWTYPES[name][0]]):
@@ -764,6 +788,18 @@ class ExprMixin:
             var = self.resolve_variant(names)
             if var is not None:
                 return self.variant_call(var, e)
+            if names[-2] in ('super', 'crate', 'self') and names[-1] in self.tr.crate.structs and self.tr.crate.structs[names[-1]].tuple_fields \
+                    and names[-1] not in NEWTYPES:
+                name = names[-1]
+                key = self.struct_key(name, e.line)
+                fields = self.struct_fields(key)
+                if len(fields) != len(e.args): self.fail('constructor %s applied to %d argument(s)' % (name, len(e.args)), e.line)
+                parts = []
+                for a_, (_, ft) in zip(e.args, fields):
+                    t, ty = self.ex(a_, want=ft)
+                    if not unify(ty, ft): self.fail('argument of %s: expected %r, found %r' % (name, deep(ft), deep(ty)), e.line)
+                    parts.append(t)
+                return (parts[0] if len(parts) == 1 else '(' + ', '.join(parts) + ')'), ('struct', key)
             b = self.builtin_static(names, f.segs, e, want)
             if b is not None:
                 return b
@@ -823,6 +859,10 @@ class ExprMixin:
             if head == 'HashMap':
                 return 'Rust.hashMapWithCapacity %s' % cap, ('map', TVar(), TVar())
             return 'Rust.hashSetWithCapacity %s' % cap, ('set', TVar())
+        if head == 'i32' and fn == 'from':
+            t, ty = self.ex(args[0])
+            if res(ty) != BOOL: self.fail('i32::from is only supported on a bool (the value is 0 or 1)', e.line)
+            return '(if %s then 1 else 0)' % t, INT('u8')
         if head in INT_RANK and fn == 'from':
             t, ty = self.ex(args[0])
             ty = res(ty)
